@@ -79,6 +79,8 @@ impl Check for UnrealisedPnl {
                     3 => (0u8..3, prop_oneof![30 => 1u32..2000, 1 => Just(0u32)], strat::dt()).prop_map(|(inst, price_q, dt)| EvSpec::MarketTrade { inst, price_q, dt }),
                     3 => (0u8..3, prop::option::weighted(0.85, (1u32..2000, 1u16..50)), prop::option::weighted(0.85, (1u32..2000, 1u16..50)), strat::dt())
                         .prop_map(|(inst, bid_q, ask_q, dt)| EvSpec::MarketL1 { inst, bid_q, ask_q, dt }),
+                    // a link of an exchange drops: prices keep arriving (or the other way round)
+                    1 => (0u8..2, any::<bool>()).prop_map(|(ex, account)| if account { EvSpec::AccountReconnecting { ex } } else { EvSpec::MarketReconnecting { ex } }),
                 ],
                 1..max,
             ),
@@ -189,6 +191,7 @@ impl Check for UnrealisedPnl {
         rep.class_if(case.perpetual.is_some_and(|s| world_contract_size_differs(s)), "perpetual_with_contract_size_not_one");
         rep.class_if(case.events.iter().any(|e| matches!(e, EvSpec::Fill { fee_bp, .. } if fee_bp & 0x8000 != 0)), "fill_with_maker_rebate");
         rep.class_if(case.events.iter().any(|e| matches!(e, EvSpec::MarketTrade { price_q: 0, .. })), "public_trade_at_price_zero");
+        rep.class_if(case.events.iter().any(|e| matches!(e, EvSpec::AccountReconnecting { .. } | EvSpec::MarketReconnecting { .. })), "link_drop_notice_in_history");
         rep.nontrivial = tracked_move;
         rep
     }
